@@ -128,9 +128,9 @@ def run(pid, tier, seed, ev):
         xd = os.path.join(sc, "x%d" % i)
         os.makedirs(xd)
         env = V.run_env()
-        pp = subprocess.run([lha, "pq2", a], capture_output=True, env=env, stdin=subprocess.DEVNULL, timeout=120)
-        pt = subprocess.run([lha, "tq2", a], capture_output=True, env=env, stdin=subprocess.DEVNULL, timeout=120)
-        px = subprocess.run([lha, "xq2w=" + xd, a], capture_output=True, env=env, stdin=subprocess.DEVNULL, timeout=120)
+        pp = V.run_bounded([lha, "pq2", a], capture_output=True, env=env, stdin=subprocess.DEVNULL, timeout=120)
+        pt = V.run_bounded([lha, "tq2", a], capture_output=True, env=env, stdin=subprocess.DEVNULL, timeout=120)
+        px = V.run_bounded([lha, "xq2w=" + xd, a], capture_output=True, env=env, stdin=subprocess.DEVNULL, timeout=120)
         for q in (pp, pt, px):
             if q.returncode < 0 or q.returncode == 99:
                 raise V.HarnessError("lha died on %s: %s" % (a, q.stderr.decode(errors="replace")[-300:]))
